@@ -51,7 +51,7 @@ class NaiveServer:
         return head + b"\r\n" + v + b"\r\n"
 
     def reply(self, cfg, op):
-        """returns None when the client will not send anything (input error) or sends noreply"""
+        """False: the client sends nothing (input error / empty key list); None: it sends but expects no reply; bytes: the reply"""
         code = op[0]
         nr = lambda n: cfg.get("default_noreply", True) if n is None else bool(n)
         if code in (0, 2):
@@ -64,7 +64,7 @@ class NaiveServer:
             w = self.wire(cfg, k)
             d, fl = self.data(cfg, v)
             if w is None or d is None or not isinstance(e, int):
-                return None
+                return False
             stored = True
             if verb == 1 and w in self.d:
                 stored = False
@@ -93,7 +93,7 @@ class NaiveServer:
                 w = self.wire(cfg, k)
                 d, fl = self.data(cfg, v)
                 if w is None or d is None:
-                    return None
+                    return False
                 self.cas += 1
                 self.d[w] = (d, fl, self.cas)
                 out += b"STORED\r\n"
@@ -101,31 +101,31 @@ class NaiveServer:
         if code in (3, 4, 5, 6, 7, 8):
             keys = [op[1]] if code in (3, 4, 5, 6) else list(op[2])
             if code in (7, 8) and not keys:
-                return None
+                return False
             ws = [self.wire(cfg, k) for k in keys]
             if None in ws:
-                return None
+                return False
             cas = code in (4, 6, 8)
             return b"".join(self.value_block(w, cas) for w in ws if w in self.d) + b"END\r\n"
         if code == 9:
             w = self.wire(cfg, op[1])
             if w is None:
-                return None
+                return False
             r = b"DELETED\r\n" if self.d.pop(w, None) else b"NOT_FOUND\r\n"
             return None if nr(op[2]) else r
         if code == 10:
             keys = list(op[2])
             if not keys:
-                return None
+                return False
             ws = [self.wire(cfg, k) for k in keys]
             if None in ws:
-                return None
+                return False
             r = b"".join(b"DELETED\r\n" if self.d.pop(w, None) else b"NOT_FOUND\r\n" for w in ws)
             return None if nr(op[3]) else r
         if code in (11, 12):
             w = self.wire(cfg, op[1])
             if w is None or not isinstance(op[2], int):
-                return None
+                return False
             if w not in self.d:
                 r = b"NOT_FOUND\r\n"
             else:
@@ -140,11 +140,11 @@ class NaiveServer:
         if code == 13:
             w = self.wire(cfg, op[1])
             if w is None or not isinstance(op[2], int):
-                return None
+                return False
             return None if nr(op[3]) else (b"TOUCHED\r\n" if w in self.d else b"NOT_FOUND\r\n")
         if code == 14:
             if not isinstance(op[1], int):
-                return None
+                return False
             self.d.clear()
             return None if nr(op[2]) else b"OK\r\n"
         if code == 15:
@@ -157,42 +157,27 @@ class NaiveServer:
         return None
 
 
-def chunks(data, rng, mode=None):
-    if not data:
+def chunk_choices(n, rng, mode=None):
+    """recv choices delivering n bytes"""
+    if n <= 0:
         return []
     mode = mode if mode is not None else rng.randrange(4)
     if mode == 0:
-        return [data]
+        return [n]
     if mode == 1:
-        return [data[i:i + 1] for i in range(len(data))]
+        return [1] * n
     out, i = [], 0
-    while i < len(data):
-        n = rng.choice([1, 1, 2, 3, 5, 8, 4096])
-        out.append(data[i:i + n])
-        i += n
+    while i < n:
+        k = rng.choice([1, 1, 2, 3, 5, 8, 4096])
+        out.append(k)
+        i += k
     return out
-
-
-def connect_items(cfg):
-    n = 0
-    if cfg.get("tcp", True):
-        n += 1                      # getaddrinfo
-    n += 1                          # socket()
-    if cfg.get("tcp", True) and cfg.get("nodelay"):
-        n += 1
-    if cfg.get("tcp", True) and cfg.get("tls"):
-        n += 1
-    n += 1                          # settimeout(connect)
-    if cfg.get("keepalive"):
-        n += 4
-    n += 2                          # connect, settimeout(io)
-    return [0] * n
 
 
 def random_op(rng, keys=KEYS, values=VALUES):
     code = rng.choice([0, 0, 0, 1, 2, 3, 3, 4, 5, 6, 7, 7, 8, 9, 10, 11, 12, 13, 14, 15, 16, 17, 18, 19])
-    k = rng.choice(keys[:4] if rng.random() < 0.85 else keys)
-    v = rng.choice(values)
+    k = rng.choice(keys[:3] if rng.random() < 0.93 else keys)
+    v = rng.choice(values[:6] if rng.random() < 0.9 else values)
     n = rng.choice([None, None, True, False])
     e = rng.choice([0, 0, 60, -1, "x"]) if rng.random() < 0.1 else rng.choice([0, 60])
     f = rng.choice([None, None, None, 5])
@@ -256,51 +241,41 @@ def native_only(ops):
     return out
 
 
-def build_script(rng, cfg, ops, fault_rate=0.0, server=None):
-    """Fault-free alignment: connect items, then per op one item for sendall and the reply chunks."""
+def build_case(rng, cfg, ops, fault_rate=0.0, server=None):
+    """-> (script, choices, replies): replies from the naive server, one per sendall; choices chunk each reply;
+    script/choices/replies then mutated with faults at rate fault_rate"""
     srv = server or NaiveServer()
-    script = []
-    connected = False
+    replies, choices = [], []
+    nsend = 0
     for op in ops:
         if op[0] == 19:
-            connected = False
             continue
         rep = srv.reply(cfg, op)
-        sends = not (rep is None and op[0] not in (0, 1, 2, 9, 10, 11, 12, 13, 14, 17))
-        if rep is None and op[0] in (0, 1, 2, 9, 10, 11, 12, 13, 14):
-            # either noreply (sends) or an input error (does not send): cannot tell cheaply; assume it sends
-            sends = True
-        if not sends:
+        if rep is False:
             continue
-        if not connected:
-            script += connect_items(cfg)
-            connected = True
-        script.append(0)
-        if rep is not None:
-            if rng.random() < 0.12:
-                rep = rng.choice(ERR_LINES)
-            script += chunks(rep, rng)
-        if op[0] == 17:
-            connected = False
-    # mutate
-    out = []
-    for it in script:
-        r = rng.random()
-        if r < fault_rate:
-            k = rng.randrange(5)
-            if k == 0:
-                out.append((TAGS[rng.choice(FAULTS)],))
-            elif k == 1 and isinstance(it, bytes):
-                out.append(1)
-                out.append(it)
-            elif k == 2 and isinstance(it, bytes):
-                out.append(it[:rng.randrange(0, len(it) + 1)])
-                out.append(b"")
-            elif k == 3:
-                out.append((TAGS[rng.choice(FAULTS[:4])],))
-                out.append(it)
-            else:
-                out.append(it)
-        else:
-            out.append(it)
-    return out
+        if rep is not None and rng.random() < 0.12:
+            rep = rng.choice(ERR_LINES)
+        replies.append(rep or b"")
+        nsend += 1
+        if rep:
+            choices += chunk_choices(len(rep), rng)
+            if rng.random() < 0.3:
+                choices.insert(rng.randrange(len(choices) + 1), 0)          # EINTR somewhere
+    script = []
+    if fault_rate > 0:
+        for _ in range(40):
+            script.append((TAGS[rng.choice(FAULTS)],) if rng.random() < fault_rate else 0)
+        c2 = []
+        for c in choices:
+            r = rng.random()
+            if r < fault_rate / 2:
+                c2.append((TAGS[rng.choice(FAULTS)],))
+            elif r < fault_rate:
+                c2.append(None)
+            c2.append(c)
+        choices = c2
+        if rng.random() < fault_rate:
+            replies = [r[:rng.randrange(0, len(r) + 1)] if rng.random() < 0.3 else r for r in replies]
+    if rng.random() < 0.3:
+        choices = choices[:rng.randrange(0, len(choices) + 1)]        # run out of choices: everything is delivered at once
+    return script, choices, replies
